@@ -697,7 +697,7 @@ class FunctionTerms:
             return ("comp", "list") + tuple(args[0][2:])
         return None
 
-    def _inline_call(self, f, args, kws, env, ctx):
+    def _inline_call(self, f, args, kws, env, ctx, as_property: bool = False):
         """Helpers that no rule knows by name are read THROUGH: their body is evaluated in place (events and all), with the parameters
         bound to the argument terms, and the call's value is the folded value of their returns.  `extract helper` / `inline helper`
         refactorings therefore leave the events and terms of the caller unchanged.  Functions that rules name (anchors) stay opaque."""
@@ -728,10 +728,13 @@ class FunctionTerms:
         elif f[0] == "attr" and f[1] == ("param", "self") and self._cls_stack[-1] is not None:
             mod, cls = self._cls_stack[-1]
             for n in cls.body:
-                if isinstance(n, ast.FunctionDef) and n.name == f[2] and not n.decorator_list:
+                is_prop = len(n.decorator_list) == 1 and isinstance(n.decorator_list[0], ast.Name) and n.decorator_list[0].id == "property" \
+                    if isinstance(n, ast.FunctionDef) else False
+                if isinstance(n, ast.FunctionDef) and n.name == f[2] and ((not n.decorator_list and not as_property) or (as_property and is_prop)):
                     from .core import FuncRef as _FR
                     callee = _FR(mod, n, cls)
                     recv = f[1]
+                    deco_ok = as_property
         if callee is None or "/tests/" in callee.module.rel() or not self.prog.inlinable(callee, allow_decorated=deco_ok):
             return None
         if any(fr["qual"] == callee.qual for fr in self._inline_stack) or callee.qual == self.ref.qual:
@@ -1203,6 +1206,12 @@ class FunctionTerms:
             fields = self._nt_fields.get(base)
             if fields is None and base[0] == "call" and base[1][0] == "global" and base[1][1].startswith(self.prog.PKG + "."):
                 fields = self.prog.returned_namedtuple(base[1][1])
+            if base == ("param", "self") and self._cls_stack and self._cls_stack[-1] is not None and any(
+                    isinstance(n, ast.FunctionDef) and n.name == e.attr and n.decorator_list for n in self._cls_stack[-1][1].body):
+                # a small private @property of the current class that no rule names is read through like a helper method
+                inl = self._inline_call(("attr", base, e.attr), [], [], env, ctx, as_property=True)
+                if inl is not None:
+                    return inl
             if base == ("param", "self") and self._cls_stack and self._cls_stack[-1] is not None:
                 cv = self._class_constant(e.attr)
                 if cv is not None:
